@@ -1,4 +1,5 @@
 import FlowRecordProofs.Lemmas.ComposeMore
+import FlowRecord.Gen.Pipeline
 /-!
 C15 — record composition follows the documented precedence rules.
 Property theorems only, all by list induction over association-list models (`Model/Compose.lean`); values are
@@ -171,6 +172,12 @@ theorem C15_grouped_first_wins {V : Type} (members pre post : List (Rec V)) (x :
     simp [List.flatMap_def]
   rw [this]
   exact alGet_flatMap_first (·.slots) pre post x k v hpre hx
+
+/-- A field rewriter takes the values of the record it rewrites from the record's DICTIONARY view
+    (`init_from_dict(ChainMap(local_dict, record._asdict()))`, regenerated as `Gen.rewriterKeepsAllValues`) - for a
+    grouped record that is the view of the theorem below, not attribute access on the group object (which serves the
+    group's own `name`, `records`, ...). -/
+theorem C15_rewriter_reads_the_dictionary_view : Gen.rewriterKeepsAllValues = true := by decide
 
 /-- GROUPED RECORD, dictionary view: `_asdict()` holds, for EVERY key of the flat view - also one spelled like an
     attribute of the group object itself (`name`, `records`, `descriptors`, `flat_fields`) - the value of the first
